@@ -2,7 +2,7 @@
    (1) width reservation of _dispatch_apply_redirect over any chain of queues: balanced, no wrap, helpers = minimum granted;
    (2) _dispatch_apply_serial runs 0..n-1 in order;
    (3) invariants of the _dispatch_apply_invoke2 protocol for any number of helpers and any interleaving. *)
-From Coq Require Import ZArith Bool List Lia ZifyBool.
+From Coq Require Import ZArith Bool List Lia.
 From Verif Require Import Word Bits Conc Gen_consts Gen_fields Gen_apply Apply.
 Import ListNotations.
 Local Open Scope Z_scope.
@@ -223,6 +223,13 @@ Lemma lsum_nonneg f l : (forall u, In u l -> 0 <= f u) -> 0 <= lsum f l.
 Proof. induction l as [|x l IH]; intros H; cbn; [lia|]. pose proof (H x (or_introl eq_refl)). assert (0 <= lsum f l) by (apply IH; intros; apply H; right; auto). lia. Qed.
 Lemma lsum_le_len f l : (forall u, In u l -> f u <= 1) -> lsum f l <= Z.of_nat (length l).
 Proof. induction l as [|x l IH]; intros H; cbn [lsum length]; [lia|]. pose proof (H x (or_introl eq_refl)). assert (lsum f l <= Z.of_nat (length l)) by (apply IH; intros; apply H; right; auto). lia. Qed.
+Lemma lsum_le_len_strict f l t : In t l -> f t <= 0 -> (forall u, In u l -> f u <= 1) -> lsum f l <= Z.of_nat (length l) - 1.
+Proof.
+  induction l as [|x l IH]; intros Hin H0 H; [contradiction|]. cbn [lsum length].
+  destruct Hin as [->|Hin].
+  - assert (lsum f l <= Z.of_nat (length l)) by (apply lsum_le_len; intros; apply H; right; auto). lia.
+  - pose proof (H x (or_introl eq_refl)). assert (lsum f l <= Z.of_nat (length l) - 1) by (apply IH; auto; intros; apply H; right; auto). lia.
+Qed.
 Lemma lsum_ge_term f l t : In t l -> (forall u, In u l -> 0 <= f u) -> f t <= lsum f l.
 Proof.
   induction l as [|x l IH]; intros Hin H; [contradiction|]. cbn [lsum].
@@ -284,6 +291,15 @@ Definition thread_inv (s : gst) (t : Z) : Prop :=
 Definition past_wait (p : pc) : bool :=
   match p with PWaitLoad | PWaitFutex | PWaitSleep | PDec | PDone | PRet => true | _ => false end.
 Definition past_event (p : pc) : bool := match p with PDec | PDone | PRet => true | _ => false end.
+Definition is_ret (p : pc) : bool := match p with PRet => true | _ => false end.
+
+Definition sig_clause (sg : option Z) (td : Z) (sd : bool) (f : Z -> pc) : Prop :=
+  match sg with
+  | None => 0 < td /\ sd = false
+  | Some g => td = 0 /\ (sd = false <-> f g = PSignal)
+  end.
+Definition slp_clause (sl : sleepst) (pcc : pc) (sd : bool) (sg : option Z) (f : Z -> pc) : Prop :=
+  sl = Sleeping -> pcc = PWaitSleep /\ (sd = false \/ exists g, sg = Some g /\ f g = PWake).
 
 Record Ginv (s : gst) : Prop := mkGinv {
   g_idx0 : 0 <= index s;
@@ -295,18 +311,14 @@ Record Ginv (s : gst) : Prop := mkGinv {
   g_len : Z.of_nat (length (parts s)) <= T;
   g_inc : In c (parts s);
   g_evt : evt s = evt_enc (sigd s) (waited s);
-  g_sig : match signaller s with
-          | None => 0 < todo s /\ sigd s = false
-          | Some g => todo s = 0 /\ (sigd s = false <-> pcs s g = PSignal)
-          end;
-  g_freed : freed s = (if thrcnt s =? 0 then 1 else 0);
+  g_sig : sig_clause (signaller s) (todo s) (sigd s) (pcs s);
+  g_freed : (thrcnt s = 0 -> freed s = 1) /\ (thrcnt s <> 0 -> freed s = 0);
   g_uaf : uaf s = false;
   g_dcbad : dcbad s = false;
   g_waited : waited s = past_wait (pcs s c);
   g_csig : past_event (pcs s c) = true -> sigd s = true;
-  g_ret : returned s = (match pcs s c with PRet => true | _ => false end);
-  g_slp : slp s = Sleeping ->
-          pcs s c = PWaitSleep /\ (sigd s = false \/ exists g, signaller s = Some g /\ pcs s g = PWake)
+  g_ret : returned s = is_ret (pcs s c);
+  g_slp : slp_clause (slp s) (pcs s c) (sigd s) (signaller s) (pcs s)
 }.
 
 Definition Inv (s : gst) : Prop := Ginv s /\ (forall t, thread_inv s t) /\ (forall i, index_inv s i).
@@ -318,15 +330,14 @@ Lemma Inv_init : Inv (init_state n T c).
 Proof.
   pose proof params as (Hn & HT & HnT).
   unfold Inv, init_state. split; [|split].
-  - constructor; sp; unfold psum, claimed; sp; cbn [lsum length]; rewrite ?upd_same; cbn [over pending holds past_wait past_event];
-      try lia; try reflexivity; try discriminate.
+  - constructor; sp; unfold psum, claimed, sig_clause, slp_clause; sp; cbn [lsum length]; rewrite ?upd_same; cbn [over pending holds past_wait past_event is_ret];
+      try lia; try reflexivity; try discriminate; try (split; [lia|reflexivity]).
     + constructor; [intros []|constructor].
     + left; reflexivity.
   - intros t. unfold thread_inv, at_pc; sp. destruct (Z.eq_dec t c) as [->|Ne].
-    + rewrite upd_same. cbn. repeat split; try discriminate; auto. intros _. discriminate.
-    + rewrite upd_other by exact Ne. cbn. repeat split; try discriminate; auto.
-      * intros H; contradiction.
-      * intros [H|[]]. congruence.
+    + rewrite upd_same. cbn. split; [exact Logic.I|]. split; [discriminate|]. split; [intros _; left; reflexivity|discriminate].
+    + rewrite upd_other by exact Ne. cbn. split; [exact Logic.I|]. split; [discriminate|]. split; [intros H; contradiction|].
+      intros [H|[]]. congruence.
   - intros i. unfold index_inv, claimed; sp. rewrite Z.min_l by lia.
     destruct (Z.leb_spec 0 i), (Z.ltb_spec i 0); cbn; auto; lia.
 Qed.
@@ -354,11 +365,16 @@ Proof.
   intros G HT Hh. assert (Hin : In t (parts s)).
   { apply (HT t). intros E. rewrite E in Hh. discriminate. }
   pose proof (psum_holds_ge s t Hin). pose proof (g_thr s G). pose proof (g_len s G).
-  assert (1 <= thrcnt s) by lia. pose proof (g_freed s G) as F.
-  destruct (Z.eqb_spec (thrcnt s) 0); [lia|]. rewrite F. auto.
+  assert (1 <= thrcnt s) by lia. pose proof (g_freed s G) as [_ F].
+  rewrite F by lia. auto.
 Qed.
-Lemma index_small s : Ginv s -> index s + 1 < 18446744073709551616.
-Proof. intros G. pose proof params. pose proof (g_idx1 s G). pose proof (psum_over_le s). pose proof (g_len s G). lia. Qed.
+Lemma index_small s t : Ginv s -> In t (parts s) -> over (pcs s t) = 0 -> index s + 1 < 18446744073709551616.
+Proof.
+  intros G Hin Ho. pose proof params as (? & ? & ?). pose proof (g_idx1 s G). pose proof (g_len s G).
+  assert (psum over s <= Z.of_nat (length (parts s)) - 1).
+  { unfold psum. apply (lsum_le_len_strict (fun u => over (pcs s u)) (parts s) t Hin); [lia|]. intros u _. apply over_range. }
+  lia.
+Qed.
 (* while some participant still owes a subtraction, nobody has signalled and the caller has not returned *)
 Lemma owes_not_done s t : Ginv s -> (forall u, thread_inv s u) -> In t (parts s) -> 1 <= pending (pcs s t) ->
   signaller s = None /\ sigd s = false /\ returned s = false /\ 1 <= todo s.
@@ -366,7 +382,525 @@ Proof.
   intros G HT Hin Hp. pose proof (psum_pending_ge s t HT Hin). pose proof (g_todo s G).
   assert (claimed s <= n) by (unfold claimed; lia).
   assert (Ht : 1 <= todo s) by lia.
-  pose proof (g_sig s G) as S. destruct (signaller s) as [g|]; [lia|]. destruct S as [_ Sd].
+  pose proof (g_sig s G) as S. unfold sig_clause in S. destruct (signaller s) as [g|]; [lia|]. destruct S as [_ Sd].
   repeat split; auto. rewrite (g_ret s G). pose proof (g_csig s G) as C.
   destruct (pcs s c); try reflexivity. cbn in C. rewrite Sd in C. discriminate C. reflexivity.
+Qed.
+
+(* ---- frame lemmas ---- *)
+Lemma sig_frame sg td sd f t p' : sig_clause sg td sd f -> f t <> PSignal -> p' <> PSignal -> sig_clause sg td sd (upd f t p').
+Proof.
+  unfold sig_clause. destruct sg as [g|]; [|auto]. intros [A B] H1 H2. split; [exact A|].
+  destruct (Z.eq_dec g t) as [->|Ne]; [rewrite upd_same|rewrite upd_other by exact Ne; exact B].
+  split; intros H; [apply B in H; contradiction|contradiction].
+Qed.
+Lemma slp_frame sl pcc sd sg f t p' : slp_clause sl pcc sd sg f -> f t <> PWake -> slp_clause sl pcc sd sg (upd f t p').
+Proof.
+  unfold slp_clause. intros H Hn Hs. destruct (H Hs) as [A B]. split; [exact A|].
+  destruct B as [B|(g & Eg & Pg)]; [left; exact B|right]. exists g. split; [exact Eg|].
+  rewrite upd_other; [exact Pg|]. intros ->. contradiction.
+Qed.
+Lemma psum_step g s s' t p' : parts s' = parts s -> pcs s' = upd (pcs s) t p' -> NoDup (parts s) -> In t (parts s) ->
+  psum g s' = psum g s - g (pcs s t) + g p'.
+Proof. unfold psum. intros -> -> Hn Hi. apply lsum_upd_in; assumption. Qed.
+Lemma psum_start g s s' t p' : parts s' = t :: parts s -> pcs s' = upd (pcs s) t p' -> ~ In t (parts s) ->
+  psum g s' = g p' + psum g s.
+Proof. unfold psum. intros -> -> Hn. cbn [lsum]. rewrite upd_same. rewrite lsum_upd_notin by exact Hn. reflexivity. Qed.
+
+Lemma other_thread s s' t u :
+  u <> t -> thread_inv s u ->
+  pcs s' u = pcs s u ->
+  index s <= index s' ->
+  (forall i, owner s i = Some u -> owner s' i = Some u) ->
+  (signaller s = Some u -> signaller s' = Some u) ->
+  (pcs s u = PSignal -> sigd s' = false) ->
+  (In u (parts s') <-> In u (parts s)) ->
+  thread_inv s' u.
+Proof.
+  intros Ne (A & O & P) Ep Hi Ho Hsg Hsd Hp. unfold thread_inv, at_pc in *. rewrite Ep.
+  split; [|split].
+  - destruct (pcs s u); auto.
+    + destruct A as (A1 & A2 & A3 & A4). repeat split; auto; lia.
+    + destruct A as (A1 & A2 & A3 & A4). repeat split; auto; lia.
+    + destruct A as (A1 & A2). split; auto.
+  - intros H. specialize (O H). lia.
+  - rewrite Hp. exact P.
+Qed.
+
+(* the index-centric invariant is untouched by a move of t that keeps bval / eval_ *)
+Lemma index_frame s s' t p' i :
+  pcs s' = upd (pcs s) t p' -> claimed s' = claimed s -> owner s' = owner s -> begun s' = begun s -> ended s' = ended s ->
+  (forall j, bval p' j = bval (pcs s t) j /\ eval_ p' j = eval_ (pcs s t) j) ->
+  index_inv s i -> index_inv s' i.
+Proof.
+  unfold index_inv. intros -> -> -> -> -> Hv H.
+  destruct ((0 <=? i) && (i <? claimed s)); [|exact H].
+  destruct H as (t0 & Eo & Eb & Ee). exists t0. split; [exact Eo|].
+  destruct (Z.eq_dec t0 t) as [->|Ne].
+  - rewrite upd_same. destruct (Hv i) as [-> ->]. auto.
+  - rewrite upd_other by exact Ne. auto.
+Qed.
+
+Lemma caller_frame (h : pc -> bool) (f : Z -> pc) t p' : h p' = h (f t) -> h (upd f t p' c) = h (f c).
+Proof. intros H. destruct (Z.eq_dec c t) as [->|Ne]; [rewrite upd_same; exact H|rewrite upd_other by exact Ne; reflexivity]. Qed.
+Lemma slp_caller_frame sl sd sg (f : Z -> pc) t p' :
+  slp_clause sl (f c) sd sg f -> f t <> PWake -> f t <> PWaitSleep -> slp_clause sl (upd f t p' c) sd sg (upd f t p').
+Proof.
+  intros H H1 H2. destruct (Z.eq_dec c t) as [->|Ne].
+  - intros Hs. destruct (H Hs) as [A _]. contradiction.
+  - rewrite upd_other by exact Ne. apply slp_frame; assumption.
+Qed.
+Lemma over_out w : over (out w) = 1. Proof. destruct w; reflexivity. Qed.
+Lemma pending_out w : pending (out w) = 0. Proof. destruct w; reflexivity. Qed.
+Lemma holds_out w : holds (out w) = 1. Proof. destruct w; reflexivity. Qed.
+Lemma sigd_of s u : thread_inv s u -> pcs s u = PSignal -> sigd s = false.
+Proof. intros (A & _) H. unfold at_pc in A. rewrite H in A. apply A. Qed.
+
+Lemma owner_fresh s : (forall i, index_inv s i) -> 0 <= index s ->
+  owner s (index s) = None /\ begun s (index s) = 0 /\ ended s (index s) = 0.
+Proof.
+  intros HI H0. specialize (HI (index s)). unfold index_inv, claimed in HI.
+  destruct (Z.ltb_spec (index s) (Z.min (index s) n)); [lia|]. rewrite andb_false_r in HI. exact HI.
+Qed.
+
+Lemma index_claim s s' t d i :
+  (forall j, bval (pcs s t) j = 1 /\ eval_ (pcs s t) j = 1) ->
+  0 <= index s < n ->
+  pcs s' = upd (pcs s) t (PCall (index s) d) -> index s' = index s + 1 -> owner s' = upd (owner s) (index s) (Some t) ->
+  begun s' = begun s -> ended s' = ended s ->
+  (forall i, index_inv s i) -> index_inv s' i.
+Proof.
+  intros Hv Hr Ep Ei Eo Eb Ee HI. destruct (owner_fresh s HI ltac:(lia)) as (F1 & F2 & F3).
+  unfold index_inv, claimed. rewrite Ep, Ei, Eo, Eb, Ee.
+  destruct (Z.eq_dec i (index s)) as [->|Ne].
+  - destruct (Z.leb_spec 0 (index s)); [|lia]. destruct (Z.ltb_spec (index s) (Z.min (index s + 1) n)); [|lia]. cbn [andb].
+    exists t. rewrite !upd_same. cbn [bval eval_]. rewrite Z.eqb_refl. auto.
+  - specialize (HI i). unfold index_inv, claimed in HI. rewrite (upd_other (owner s)) by exact Ne.
+    replace (i <? Z.min (index s + 1) n) with (i <? Z.min (index s) n)
+      by (destruct (Z.ltb_spec i (Z.min (index s) n)), (Z.ltb_spec i (Z.min (index s + 1) n)); lia || reflexivity).
+    destruct ((0 <=? i) && (i <? Z.min (index s) n)); [|exact HI].
+    destruct HI as (t0 & A & B & C). exists t0. split; [exact A|].
+    destruct (Z.eq_dec t0 t) as [->|Nt].
+    + rewrite upd_same. cbn [bval eval_]. destruct (Z.eqb_spec (index s) i); [congruence|].
+      destruct (Hv i) as [V1 V2]. rewrite B, C, V1, V2. auto.
+    + rewrite upd_other by exact Nt. auto.
+Qed.
+
+Lemma index_begin s s' t i0 d i :
+  pcs s t = PCall i0 d -> owner s i0 = Some t -> 0 <= i0 < claimed s ->
+  pcs s' = upd (pcs s) t (PInCall i0 d) -> index s' = index s -> owner s' = owner s ->
+  begun s' = upd (begun s) i0 (begun s i0 + 1) -> ended s' = ended s ->
+  (forall i, index_inv s i) -> index_inv s' i.
+Proof.
+  intros Hpc Ho Hr Ep Ei Eo Eb Ee HI. specialize (HI i). unfold index_inv, claimed in *. rewrite Ep, Ei, Eo, Eb, Ee.
+  destruct (Z.eq_dec i i0) as [->|Ne].
+  - destruct (Z.leb_spec 0 i0); [|lia]. destruct (Z.ltb_spec i0 (Z.min (index s) n)); [|lia]. cbn [andb] in *.
+    destruct HI as (t0 & A & B & C). assert (t0 = t) by congruence. subst t0. exists t. split; [exact A|].
+    rewrite !upd_same. rewrite Hpc in B, C. cbn [bval eval_] in *. rewrite Z.eqb_refl in *. split; lia.
+  - rewrite (upd_other (begun s)) by exact Ne.
+    destruct ((0 <=? i) && (i <? Z.min (index s) n)); [|exact HI].
+    destruct HI as (t0 & A & B & C). exists t0. split; [exact A|].
+    destruct (Z.eq_dec t0 t) as [->|Nt].
+    + rewrite upd_same. rewrite Hpc in B, C. cbn [bval eval_] in *. destruct (Z.eqb_spec i0 i); [congruence|]. auto.
+    + rewrite upd_other by exact Nt. auto.
+Qed.
+
+Lemma index_end s s' t i0 d p' i :
+  pcs s t = PInCall i0 d -> owner s i0 = Some t -> 0 <= i0 < claimed s ->
+  (forall j, bval p' j = 1 /\ eval_ p' j = 1) ->
+  pcs s' = upd (pcs s) t p' -> index s' = index s -> owner s' = owner s ->
+  begun s' = begun s -> ended s' = upd (ended s) i0 (ended s i0 + 1) ->
+  (forall i, index_inv s i) -> index_inv s' i.
+Proof.
+  intros Hpc Ho Hr Hv Ep Ei Eo Eb Ee HI. specialize (HI i). unfold index_inv, claimed in *. rewrite Ep, Ei, Eo, Eb, Ee.
+  destruct (Hv i) as [V1 V2].
+  destruct (Z.eq_dec i i0) as [->|Ne].
+  - destruct (Z.leb_spec 0 i0); [|lia]. destruct (Z.ltb_spec i0 (Z.min (index s) n)); [|lia]. cbn [andb] in *.
+    destruct HI as (t0 & A & B & C). assert (t0 = t) by congruence. subst t0. exists t. split; [exact A|].
+    rewrite !upd_same. rewrite Hpc in B, C. cbn [bval eval_] in *. rewrite Z.eqb_refl in *. rewrite V1, V2. split; lia.
+  - rewrite (upd_other (ended s)) by exact Ne.
+    destruct ((0 <=? i) && (i <? Z.min (index s) n)); [|exact HI].
+    destruct HI as (t0 & A & B & C). exists t0. split; [exact A|].
+    destruct (Z.eq_dec t0 t) as [->|Nt].
+    + rewrite upd_same. rewrite Hpc in B, C. cbn [bval eval_] in *. destruct (Z.eqb_spec i0 i); [congruence|]. rewrite V1, V2. auto.
+    + rewrite upd_other by exact Nt. auto.
+Qed.
+
+Ltac zlia :=
+  match goal with
+  | |- _ <= _ => lia | |- _ < _ => lia | |- @eq Z _ _ => lia | |- _ <= _ <= _ => lia | |- _ <= _ < _ => lia
+  | |- (_ = 0 -> _) /\ _ => lia
+  end.
+Ltac ginv_auto Hpc :=
+  unfold claimed in *; sp;
+  try match goal with H : (0 <? freed _) = false |- _ => rewrite ?H end; rewrite ?orb_false_r;
+  try match goal with Nc : c <> ?t |- _ => rewrite ?(upd_other _ t _ c Nc) end;
+  try assumption; try zlia;
+  try (match goal with
+   | |- sig_clause _ _ _ (upd _ _ _) => apply sig_frame; [assumption | rewrite Hpc; discriminate | try discriminate; destruct (_ =? c); discriminate]
+   | |- slp_clause _ (upd _ _ _ _) _ _ (upd _ _ _) => apply slp_caller_frame; [assumption | rewrite Hpc; discriminate | rewrite Hpc; discriminate]
+   | |- slp_clause _ _ _ _ (upd _ _ _) => apply slp_frame; [assumption | rewrite Hpc; discriminate]
+   | |- _ = past_wait (upd _ _ _ _) => rewrite (caller_frame past_wait) by (rewrite Hpc; reflexivity); assumption
+   | |- _ = is_ret (upd _ _ _ _) => rewrite (caller_frame is_ret) by (rewrite Hpc; reflexivity); assumption
+   | |- past_event (upd _ _ _ _) = true -> _ => rewrite (caller_frame past_event) by (rewrite Hpc; reflexivity); assumption
+   end).
+Ltac psums s s1 t p' Gnd Hin Hpc :=
+  let Po := fresh "Po" in let Pp := fresh "Pp" in let Ph := fresh "Ph" in
+  pose proof (psum_step over s s1 t p' eq_refl eq_refl Gnd Hin) as Po;
+  pose proof (psum_step pending s s1 t p' eq_refl eq_refl Gnd Hin) as Pp;
+  pose proof (psum_step holds s s1 t p' eq_refl eq_refl Gnd Hin) as Ph;
+  rewrite Hpc in Po, Pp, Ph; cbn [over pending holds] in Po, Pp, Ph;
+  rewrite ?over_out, ?pending_out, ?holds_out in Po, Pp, Ph.
+Ltac others_std s HT t u Ne :=
+  apply (other_thread s _ t u Ne (HT u)); sp;
+  [ apply upd_other; exact Ne | try lia | auto | auto | intros Hx; pose proof (sigd_of s u (HT u) Hx) as Hy; first [exact Hy | congruence] | reflexivity ].
+Ltac self_inv := unfold thread_inv, at_pc; sp; rewrite upd_same; cbn [over].
+
+Lemma step_preserves s t e s' : Inv s -> gstep s t e = Some s' -> Inv s'.
+Proof.
+  intros (G & HT & HI) Hs. pose proof params as (Hn & HTr & HnT).
+  pose proof G as [Gi0 Gi1 Gt Gtl Gth Gnd Gl Gc Ge Gs Gf Gu Gd Gw Gcs Gr Gsl].
+  unfold Apply.gstep in Hs. destruct (tstep n (t =? c) (pcs s t) e) as [p'|] eqn:Hts; [|discriminate].
+  pose proof (HT t) as (At & Ov & Pin). unfold at_pc in At.
+  pose proof (psum_over_le s) as Bo. pose proof (psum_holds_le s) as Bh. pose proof (psum_pending_nonneg s HT) as Bp.
+  assert (Hcl : claimed s <= n) by (unfold claimed; lia).
+  destruct (pcs s t) eqn:Hpc; cbn [tstep] in Hts.
+  - (* PIdle: a helper continuation starts *)
+    destruct (ev_kind e DVU_MARK); [|discriminate]. injection Hts as <-.
+    destruct (negb (t =? c) && (Z.of_nat (length (parts s)) <? T)) eqn:C; [|discriminate].
+    apply andb_true_iff in C as [C1 C2]. apply negb_true_iff, Z.eqb_neq in C1. apply Z.ltb_lt in C2.
+    injection Hs as <-.
+    assert (Nc : c <> t) by congruence.
+    assert (Nin : ~ In t (parts s)) by (intros H; apply Pin in H; congruence).
+    match goal with |- Inv ?x => set (s1 := x) end.
+    pose proof (psum_start over s s1 t PFirst eq_refl eq_refl Nin) as Po.
+    pose proof (psum_start pending s s1 t PFirst eq_refl eq_refl Nin) as Pp.
+    pose proof (psum_start holds s s1 t PFirst eq_refl eq_refl Nin) as Ph.
+    cbn [over pending holds] in Po, Pp, Ph.
+    split; [|split].
+    + constructor; rewrite ?Po, ?Pp, ?Ph; subst s1; sp; ginv_auto Hpc.
+      * cbn [length]. rewrite Nat2Z.inj_succ. lia.
+      * constructor; assumption.
+      * cbn [length]. rewrite Nat2Z.inj_succ. lia.
+      * right; assumption.
+    + intros u. subst s1. destruct (Z.eq_dec u t) as [->|Ne].
+      * self_inv. split; [exact Logic.I|]. split; [discriminate|]. split; [intros _; left; reflexivity|discriminate].
+      * apply (other_thread s _ t u Ne (HT u)); sp; auto; try lia.
+        -- apply upd_other; exact Ne.
+        -- intros Hx; exact (sigd_of s u (HT u) Hx).
+        -- split; [intros [H|H]; [congruence|exact H]|intros H; right; exact H].
+    + intros i. subst s1. apply (index_frame s _ t PFirst i); sp; auto. intros j. rewrite Hpc. cbn. auto.
+  - (* PFirst: the first fetch-and-increment of da_index *)
+    destruct (ev_site e st_first OFF_INDEX && (eb e =? 1)); [|discriminate]. injection Hts as <-.
+    destruct (Z.eqb_spec (ea e) (index s)) as [Ea|]; [|discriminate]. injection Hs as <-. rewrite Ea.
+    assert (Hin : In t (parts s)) by (apply Pin; discriminate).
+    pose proof (alive s t G HT ltac:(rewrite Hpc; reflexivity)) as (Al1 & Al2 & Al3).
+    pose proof (index_small s t G Hin ltac:(rewrite Hpc; reflexivity)) as Hsm.
+    assert (Ew : wrapsz 8 (index s + 1) = index s + 1)
+      by (unfold wrapsz; apply Z.mod_small; change (2 ^ (8 * 8)) with 18446744073709551616; lia).
+    rewrite Ew.
+    destruct (Z.geb_spec (index s) n) as [Hge|Hlt].
+    + destruct (Z.ltb_spec (index s) n) as [|_]; [lia|].
+      match goal with |- Inv ?x => set (s1 := x) end.
+      psums s s1 t (out (t =? c)) Gnd Hin Hpc.
+      split; [|split].
+      * destruct (Z.eqb_spec t c) as [Etc|Nc']; [subst t|assert (Nc : c <> t) by congruence]; cbn [out over pending holds] in *;
+          (constructor; rewrite ?Po, ?Pp, ?Ph; subst s1; sp; ginv_auto Hpc).
+      * intros u. subst s1. destruct (Z.eq_dec u t) as [->|Ne].
+        -- self_inv. rewrite over_out. destruct (Z.eqb_spec t c); cbn [out]; (split; [auto|]); (split; [lia|]);
+             (split; [intros _; exact Hin|discriminate]).
+        -- others_std s HT t u Ne.
+      * intros i. subst s1. apply (index_frame s _ t (out (t =? c)) i); sp; auto.
+        -- unfold claimed; sp; lia.
+        -- intros j. rewrite Hpc. destruct (t =? c); cbn; auto.
+    + destruct (Z.ltb_spec (index s) n) as [_|]; [|lia].
+      match goal with |- Inv ?x => set (s1 := x) end.
+      psums s s1 t (PCall (index s) 0) Gnd Hin Hpc.
+      split; [|split].
+      * constructor; rewrite ?Po, ?Pp, ?Ph; subst s1; sp; ginv_auto Hpc.
+      * intros u. subst s1. destruct (Z.eq_dec u t) as [->|Ne].
+        -- self_inv. rewrite upd_same. repeat split; try lia; try discriminate. intros _; exact Hin.
+        -- others_std s HT t u Ne. intros i Hi. destruct (Z.eq_dec i (index s)) as [->|Ni]; [|rewrite upd_other by exact Ni; exact Hi].
+           destruct (owner_fresh s HI Gi0) as (F & _). congruence.
+      * intros i. subst s1. apply (index_claim s _ t 0 i); sp; auto; try lia. intros j. rewrite Hpc. cbn. auto.
+  - (* PCall: the work function is entered (the first iteration has read da_dc just before) *)
+    destruct (ev_kind e DVU_CALLOUT_BEGIN && (ea e =? idx)); [|discriminate]. injection Hts as <-. injection Hs as <-.
+    destruct At as (A1 & A2 & A3 & A4).
+    assert (Hin : In t (parts s)) by (apply Pin; discriminate).
+    destruct (owes_not_done s t G HT Hin ltac:(rewrite Hpc; cbn; lia)) as (Sn & Sd & Rf & Td).
+    rewrite Rf, andb_false_r, orb_false_r.
+    match goal with |- Inv ?x => set (s1 := x) end.
+    psums s s1 t (PInCall idx done) Gnd Hin Hpc.
+    split; [|split].
+    + constructor; rewrite ?Po, ?Pp, ?Ph; subst s1; sp; ginv_auto Hpc.
+    + intros u. subst s1. destruct (Z.eq_dec u t) as [->|Ne].
+      * self_inv. repeat split; auto; try lia; try discriminate.
+      * others_std s HT t u Ne.
+    + intros i. subst s1. apply (index_begin s _ t idx done i); sp; auto. unfold claimed; lia.
+  - (* PInCall: the work function returns *)
+    destruct (ev_kind e DVU_CALLOUT_END); [|discriminate]. injection Hts as <-. injection Hs as <-.
+    destruct At as (A1 & A2 & A3 & A4).
+    assert (Hin : In t (parts s)) by (apply Pin; discriminate).
+    match goal with |- Inv ?x => set (s1 := x) end.
+    psums s s1 t (PNext (done + 1)) Gnd Hin Hpc.
+    split; [|split].
+    + constructor; rewrite ?Po, ?Pp, ?Ph; subst s1; sp; ginv_auto Hpc.
+    + intros u. subst s1. destruct (Z.eq_dec u t) as [->|Ne].
+      * self_inv. repeat split; auto; try lia; try discriminate.
+      * others_std s HT t u Ne.
+    + intros i. subst s1. apply (index_end s _ t idx done (PNext (done + 1)) i); sp; auto. unfold claimed; lia.
+  - (* PNext: the next fetch-and-increment of da_index *)
+    destruct (ev_site e st_next OFF_INDEX && (eb e =? 1)); [|discriminate]. injection Hts as <-.
+    destruct (Z.eqb_spec (ea e) (index s)) as [Ea|]; [|discriminate]. injection Hs as <-. rewrite Ea.
+    assert (Hin : In t (parts s)) by (apply Pin; discriminate).
+    pose proof (alive s t G HT ltac:(rewrite Hpc; reflexivity)) as (Al1 & Al2 & Al3).
+    pose proof (index_small s t G Hin ltac:(rewrite Hpc; reflexivity)) as Hsm.
+    assert (Ew : wrapsz 8 (index s + 1) = index s + 1)
+      by (unfold wrapsz; apply Z.mod_small; change (2 ^ (8 * 8)) with 18446744073709551616; lia).
+    rewrite Ew.
+    destruct (Z.ltb_spec (index s) n) as [Hlt|Hge].
+    + match goal with |- Inv ?x => set (s1 := x) end.
+      psums s s1 t (PCall (index s) done) Gnd Hin Hpc.
+      split; [|split].
+      * constructor; rewrite ?Po, ?Pp, ?Ph; subst s1; sp; ginv_auto Hpc.
+      * intros u. subst s1. destruct (Z.eq_dec u t) as [->|Ne].
+        -- self_inv. rewrite upd_same. repeat split; try lia; try discriminate. intros _; exact Hin.
+        -- others_std s HT t u Ne. intros i Hi. destruct (Z.eq_dec i (index s)) as [->|Ni]; [|rewrite upd_other by exact Ni; exact Hi].
+           destruct (owner_fresh s HI Gi0) as (F & _). congruence.
+      * intros i. subst s1. apply (index_claim s _ t done i); sp; auto; try lia. intros j. rewrite Hpc. cbn. auto.
+    + match goal with |- Inv ?x => set (s1 := x) end.
+      psums s s1 t (PSub done) Gnd Hin Hpc.
+      split; [|split].
+      * constructor; rewrite ?Po, ?Pp, ?Ph; subst s1; sp; ginv_auto Hpc.
+      * intros u. subst s1. destruct (Z.eq_dec u t) as [->|Ne].
+        -- self_inv. repeat split; try lia; try discriminate. intros _; exact Hin.
+        -- others_std s HT t u Ne.
+      * intros i. subst s1. apply (index_frame s _ t (PSub done) i); sp; auto.
+        -- unfold claimed; sp; lia.
+        -- intros j. rewrite Hpc. cbn; auto.
+  - (* PSub: os_atomic_sub2o(da, da_todo, done, release) *)
+    destruct (ev_site e st_todo OFF_TODO && (eb e =? done)); [|discriminate]. injection Hts as <-.
+    destruct (Z.eqb_spec (ea e) (todo s)) as [Ea|]; [|discriminate]. cbv zeta in Hs. injection Hs as <-. rewrite Ea.
+    assert (Hin : In t (parts s)) by (apply Pin; discriminate).
+    pose proof (alive s t G HT ltac:(rewrite Hpc; reflexivity)) as (Al1 & Al2 & Al3).
+    pose proof (psum_pending_ge s t HT Hin) as Pg. rewrite Hpc in Pg. cbn [pending] in Pg.
+    assert (Ew : wrapsz 8 (todo s - done) = todo s - done)
+      by (unfold wrapsz; apply Z.mod_small; change (2 ^ (8 * 8)) with 18446744073709551616; lia).
+    rewrite Ew.
+    destruct (owes_not_done s t G HT Hin ltac:(rewrite Hpc; cbn; lia)) as (Sn & Sd & Rf & Td).
+    specialize (Ov eq_refl).
+    destruct (Z.eqb_spec (todo s - done) 0) as [Ez|Ez].
+    + match goal with |- Inv ?x => set (s1 := x) end.
+      psums s s1 t PSignal Gnd Hin Hpc.
+      split; [|split].
+      * constructor; rewrite ?Po, ?Pp, ?Ph; subst s1; sp; ginv_auto Hpc.
+        -- unfold sig_clause. split; [lia|]. rewrite upd_same. rewrite Sd. split; auto.
+        -- intros Hsl. destruct (Gsl Hsl) as [A B]. assert (c <> t) by (intros ->; congruence).
+           rewrite upd_other by assumption. split; [exact A|left; exact Sd].
+      * intros u. subst s1. destruct (Z.eq_dec u t) as [->|Ne].
+        -- self_inv. repeat split; auto; try discriminate.
+        -- apply (other_thread s _ t u Ne (HT u)); sp; auto; try lia; try reflexivity.
+           ++ apply upd_other; exact Ne.
+           ++ intros X. congruence.
+      * intros i. subst s1. apply (index_frame s _ t PSignal i); sp; auto. intros j. rewrite Hpc. cbn; auto.
+    + match goal with |- Inv ?x => set (s1 := x) end.
+      psums s s1 t (out (t =? c)) Gnd Hin Hpc.
+      split; [|split].
+      * destruct (Z.eqb_spec t c) as [Etc|Nc']; [subst t|assert (Nc : c <> t) by congruence]; cbn [out over pending holds] in *;
+          (constructor; rewrite ?Po, ?Pp, ?Ph; subst s1; sp; ginv_auto Hpc);
+          try (apply sig_frame; [|rewrite Hpc; discriminate|discriminate]; rewrite Sn; unfold sig_clause; split; [lia|exact Sd]).
+      * intros u. subst s1. destruct (Z.eq_dec u t) as [->|Ne].
+        -- self_inv. rewrite over_out. destruct (Z.eqb_spec t c); cbn [out]; (split; [auto|]); (split; [lia|]);
+             (split; [intros _; exact Hin|discriminate]).
+        -- others_std s HT t u Ne.
+      * intros i. subst s1. apply (index_frame s _ t (out (t =? c)) i); sp; auto.
+        intros j. rewrite Hpc. destruct (t =? c); cbn; auto.
+  - (* PSignal: _dispatch_thread_event_signal: inc_orig(dte_value, release) *)
+    destruct (ev_site e st_signal OFF_EVENT && (eb e =? 1)); [|discriminate]. injection Hts as <-.
+    destruct (Z.eqb_spec (ea e) (evt s)) as [Ea|]; [|discriminate]. injection Hs as <-. rewrite Ea.
+    destruct At as [As Asd].
+    assert (Hin : In t (parts s)) by (apply Pin; discriminate).
+    pose proof (alive s t G HT ltac:(rewrite Hpc; reflexivity)) as (Al1 & Al2 & Al3).
+    specialize (Ov eq_refl).
+    assert (Gs' := Gs). unfold sig_clause in Gs'. rewrite As in Gs'. destruct Gs' as [Td _].
+    rewrite Asd in Ge.
+    destruct (waited s) eqn:Ewt; cbn [evt_enc] in Ge; rewrite Ge.
+    + (* the caller is already waiting: UINT32_MAX -> 0, wake it *)
+      change (wrapsz 4 (UMAX32 + 1)) with 0. change (UMAX32 =? 0) with false. cbv iota.
+      match goal with |- Inv ?x => set (s1 := x) end.
+      psums s s1 t PWake Gnd Hin Hpc.
+      split; [|split].
+      * constructor; rewrite ?Po, ?Pp, ?Ph; subst s1; sp; ginv_auto Hpc.
+        -- reflexivity.
+        -- rewrite As. unfold sig_clause. split; [exact Td|]. rewrite upd_same. split; discriminate.
+        -- intros _. reflexivity.
+        -- intros Hsl. destruct (Gsl Hsl) as [A B]. assert (c <> t) by (intros ->; congruence).
+           rewrite upd_other by assumption. split; [exact A|right]. exists t. split; [exact As|apply upd_same].
+      * intros u. subst s1. destruct (Z.eq_dec u t) as [->|Ne].
+        -- self_inv. repeat split; auto; try discriminate.
+        -- apply (other_thread s _ t u Ne (HT u)); sp; auto; try lia; try reflexivity.
+           ++ apply upd_other; exact Ne.
+           ++ intros Hx. exfalso. destruct (HT u) as (Au & _). unfold at_pc in Au. rewrite Hx in Au. destruct Au as [Au _]. congruence.
+      * intros i. subst s1. apply (index_frame s _ t PWake i); sp; auto. intros j. rewrite Hpc. cbn; auto.
+    + (* nobody waits yet: 0 -> 1 *)
+      change (wrapsz 4 (0 + 1)) with 1. change (0 =? 0) with true. cbv iota.
+      match goal with |- Inv ?x => set (s1 := x) end.
+      psums s s1 t (out (t =? c)) Gnd Hin Hpc.
+      split; [|split].
+      * destruct (Z.eqb_spec t c) as [Etc|Nc']; [subst t|assert (Nc : c <> t) by congruence]; cbn [out over pending holds] in *;
+          (constructor; rewrite ?Po, ?Pp, ?Ph; subst s1; sp; ginv_auto Hpc);
+          try reflexivity;
+          try (rewrite As; unfold sig_clause; split; [exact Td|]; rewrite upd_same; split; discriminate);
+          try (intros _; reflexivity);
+          try (intros Hsl; exfalso; destruct (Gsl Hsl) as [A B]; rewrite A in Gw; cbn in Gw; congruence).
+      * intros u. subst s1. destruct (Z.eq_dec u t) as [->|Ne].
+        -- self_inv. rewrite over_out. destruct (Z.eqb_spec t c); cbn [out]; (split; [auto|]); (split; [lia|]);
+             (split; [intros _; exact Hin|discriminate]).
+        -- apply (other_thread s _ t u Ne (HT u)); sp; auto; try lia; try reflexivity.
+           ++ apply upd_other; exact Ne.
+           ++ intros Hx. exfalso. destruct (HT u) as (Au & _). unfold at_pc in Au. rewrite Hx in Au. destruct Au as [Au _]. congruence.
+      * intros i. subst s1. apply (index_frame s _ t (out (t =? c)) i); sp; auto.
+        intros j. rewrite Hpc. destruct (t =? c); cbn; auto.
+  - (* PWake: _dispatch_thread_event_signal_slow: futex_wake *)
+    destruct (ev_kind e DV_FUTEX_WAKE); [|discriminate]. injection Hts as <-. injection Hs as <-.
+    assert (Hin : In t (parts s)) by (apply Pin; discriminate).
+    pose proof (alive s t G HT ltac:(rewrite Hpc; reflexivity)) as (Al1 & Al2 & Al3).
+    specialize (Ov eq_refl).
+    match goal with |- Inv ?x => set (s1 := x) end.
+    psums s s1 t (out (t =? c)) Gnd Hin Hpc.
+    split; [|split].
+    + destruct (Z.eqb_spec t c) as [Etc|Nc']; [subst t|assert (Nc : c <> t) by congruence]; cbn [out over pending holds] in *;
+        (constructor; rewrite ?Po, ?Pp, ?Ph; subst s1; sp; ginv_auto Hpc);
+        try (intros Hsl; exfalso; destruct (slp s); discriminate Hsl).
+    + intros u. subst s1. destruct (Z.eq_dec u t) as [->|Ne].
+      * self_inv. rewrite over_out. destruct (Z.eqb_spec t c); cbn [out]; (split; [auto|]); (split; [lia|]);
+          (split; [intros _; exact Hin|discriminate]).
+      * others_std s HT t u Ne.
+    + intros i. subst s1. apply (index_frame s _ t (out (t =? c)) i); sp; auto.
+      intros j. rewrite Hpc. destruct (t =? c); cbn; auto.
+  - (* PWaitDec: _dispatch_thread_event_wait: dec(dte_value, acquire) -- the caller *)
+    destruct (ev_site e st_wait OFF_EVENT && (eb e =? 1)); [|discriminate]. injection Hts as <-.
+    destruct (Z.eqb_spec (ea e) (evt s)) as [Ea|]; [|discriminate]. injection Hs as <-. rewrite Ea.
+    subst t.
+    assert (Hin : In c (parts s)) by exact Gc.
+    pose proof (alive s c G HT ltac:(rewrite Hpc; reflexivity)) as (Al1 & Al2 & Al3).
+    specialize (Ov eq_refl).
+    rewrite Hpc in Gw, Gcs, Gr, Gsl. cbn [past_wait past_event is_ret] in Gw, Gcs, Gr. rewrite Gw in Ge.
+    assert (Nsl : slp s <> Sleeping) by (intros Hsl; destruct (Gsl Hsl) as [A _]; discriminate A).
+    destruct (sigd s) eqn:Esd; cbn [evt_enc] in Ge; rewrite Ge.
+    + change (wrapsz 4 (1 - 1)) with 0. change (0 =? 0) with true. cbv iota.
+      match goal with |- Inv ?x => set (s1 := x) end.
+      psums s s1 c PDec Gnd Hin Hpc.
+      split; [|split].
+      * constructor; rewrite ?Po, ?Pp, ?Ph; subst s1; sp; ginv_auto Hpc; rewrite ?upd_same; cbn [past_wait past_event is_ret evt_enc]; auto.
+        intros Hsl; contradiction.
+      * intros u. subst s1. destruct (Z.eq_dec u c) as [->|Ne].
+        -- self_inv. repeat split; auto; try discriminate.
+        -- others_std s HT c u Ne.
+      * intros i. subst s1. apply (index_frame s _ c PDec i); sp; auto. intros j. rewrite Hpc. cbn; auto.
+    + change (wrapsz 4 (0 - 1)) with UMAX32. change (UMAX32 =? 0) with false. cbv iota.
+      match goal with |- Inv ?x => set (s1 := x) end.
+      psums s s1 c PWaitLoad Gnd Hin Hpc.
+      split; [|split].
+      * constructor; rewrite ?Po, ?Pp, ?Ph; subst s1; sp; ginv_auto Hpc; rewrite ?upd_same; cbn [past_wait past_event is_ret evt_enc]; auto.
+        intros Hsl; contradiction.
+      * intros u. subst s1. destruct (Z.eq_dec u c) as [->|Ne].
+        -- self_inv. repeat split; auto; try discriminate.
+        -- others_std s HT c u Ne.
+      * intros i. subst s1. apply (index_frame s _ c PWaitLoad i); sp; auto. intros j. rewrite Hpc. cbn; auto.
+  - (* PWaitLoad: _dispatch_thread_event_wait_slow: load(dte_value, acquire) -- the caller *)
+    destruct (ev_site e st_wload OFF_EVENT); [|discriminate]. injection Hts as <-.
+    destruct (Z.eqb_spec (ea e) (evt s)) as [Ea|]; [|discriminate]. injection Hs as <-. rewrite Ea.
+    subst t.
+    assert (Hin : In c (parts s)) by exact Gc.
+    pose proof (alive s c G HT ltac:(rewrite Hpc; reflexivity)) as (Al1 & Al2 & Al3).
+    specialize (Ov eq_refl).
+    rewrite Hpc in Gw, Gcs, Gr, Gsl. cbn [past_wait past_event is_ret] in Gw, Gcs, Gr. rewrite Gw in Ge.
+    assert (Nsl : slp s <> Sleeping) by (intros Hsl; destruct (Gsl Hsl) as [A _]; discriminate A).
+    destruct (sigd s) eqn:Esd; cbn [evt_enc] in Ge; rewrite Ge.
+    + change (0 =? 0) with true. cbv iota.
+      match goal with |- Inv ?x => set (s1 := x) end.
+      psums s s1 c PDec Gnd Hin Hpc.
+      split; [|split].
+      * constructor; rewrite ?Po, ?Pp, ?Ph; subst s1; sp; rewrite ?Esd; ginv_auto Hpc; rewrite ?upd_same; cbn [past_wait past_event is_ret evt_enc]; auto; try (rewrite Gw; exact Ge).
+        intros Hsl; contradiction.
+      * intros u. subst s1. destruct (Z.eq_dec u c) as [->|Ne].
+        -- self_inv. repeat split; auto; try discriminate.
+        -- others_std s HT c u Ne.
+      * intros i. subst s1. apply (index_frame s _ c PDec i); sp; auto. intros j. rewrite Hpc. cbn; auto.
+    + change (UMAX32 =? 0) with false. change (UMAX32 =? UMAX32) with true. cbv iota.
+      match goal with |- Inv ?x => set (s1 := x) end.
+      psums s s1 c PWaitFutex Gnd Hin Hpc.
+      split; [|split].
+      * constructor; rewrite ?Po, ?Pp, ?Ph; subst s1; sp; rewrite ?Esd; ginv_auto Hpc; rewrite ?upd_same; cbn [past_wait past_event is_ret evt_enc]; auto; try (rewrite Gw; exact Ge).
+        intros Hsl; contradiction.
+      * intros u. subst s1. destruct (Z.eq_dec u c) as [->|Ne].
+        -- self_inv. repeat split; auto; try discriminate.
+        -- others_std s HT c u Ne.
+      * intros i. subst s1. apply (index_frame s _ c PWaitFutex i); sp; auto. intros j. rewrite Hpc. cbn; auto.
+  - (* PWaitFutex: futex_wait(&dte_value, UINT32_MAX) -- the caller *)
+    destruct (ev_kind e DV_FUTEX_WAIT && (ea e =? UMAX32)); [|discriminate]. injection Hts as <-. injection Hs as <-.
+    subst t.
+    assert (Hin : In c (parts s)) by exact Gc.
+    pose proof (alive s c G HT ltac:(rewrite Hpc; reflexivity)) as (Al1 & Al2 & Al3).
+    specialize (Ov eq_refl).
+    rewrite Hpc in Gw, Gcs, Gr, Gsl. cbn [past_wait past_event is_ret] in Gw, Gcs, Gr.
+    match goal with |- Inv ?x => set (s1 := x) end.
+    psums s s1 c PWaitSleep Gnd Hin Hpc.
+    split; [|split].
+    + constructor; rewrite ?Po, ?Pp, ?Ph; subst s1; sp; ginv_auto Hpc; rewrite ?upd_same; cbn [past_wait past_event is_ret evt_enc]; auto.
+      intros Hsl. split; [reflexivity|left].
+      destruct (Z.eqb_spec (evt s) UMAX32) as [Eu|]; [|discriminate Hsl].
+      rewrite Ge, Gw in Eu. destruct (sigd s); [discriminate Eu|reflexivity].
+    + intros u. subst s1. destruct (Z.eq_dec u c) as [->|Ne].
+      * self_inv. repeat split; auto; try discriminate.
+      * others_std s HT c u Ne.
+    + intros i. subst s1. apply (index_frame s _ c PWaitSleep i); sp; auto. intros j. rewrite Hpc. cbn; auto.
+  - (* PWaitSleep: futex_wait returns (woken, value changed, EINTR, spurious) -- the caller *)
+    destruct (ev_kind e DV_FUTEX_WAIT_RET); [|discriminate]. injection Hts as <-. injection Hs as <-.
+    subst t.
+    assert (Hin : In c (parts s)) by exact Gc.
+    specialize (Ov eq_refl).
+    rewrite Hpc in Gw, Gcs, Gr, Gsl. cbn [past_wait past_event is_ret] in Gw, Gcs, Gr.
+    match goal with |- Inv ?x => set (s1 := x) end.
+    psums s s1 c PWaitLoad Gnd Hin Hpc.
+    split; [|split].
+    + constructor; rewrite ?Po, ?Pp, ?Ph; subst s1; sp; ginv_auto Hpc; rewrite ?upd_same; cbn [past_wait past_event is_ret evt_enc]; auto.
+      intros Hsl; discriminate Hsl.
+    + intros u. subst s1. destruct (Z.eq_dec u c) as [->|Ne].
+      * self_inv. repeat split; auto; try discriminate.
+      * others_std s HT c u Ne.
+    + intros i. subst s1. apply (index_frame s _ c PWaitLoad i); sp; auto. intros j. rewrite Hpc. cbn; auto.
+  - (* PDec: os_atomic_dec2o(da, da_thr_cnt, release); the record is freed when the result is 0 *)
+    destruct (ev_site e st_thrcnt OFF_THRCNT && (eb e =? 1)); [|discriminate]. injection Hts as <-.
+    destruct (Z.eqb_spec (ea e) (thrcnt s)) as [Ea|]; [|discriminate]. cbv zeta in Hs. injection Hs as <-.
+    assert (Hin : In t (parts s)) by (apply Pin; discriminate).
+    pose proof (alive s t G HT ltac:(rewrite Hpc; reflexivity)) as (Al1 & Al2 & Al3).
+    specialize (Ov eq_refl).
+    assert (Ew : s32 (thrcnt s - 1) = thrcnt s - 1) by (unfold s32; rewrite Z.mod_small; lia).
+    rewrite Ew.
+    match goal with |- Inv ?x => set (s1 := x) end.
+    psums s s1 t PDone Gnd Hin Hpc.
+    split; [|split].
+    + constructor; rewrite ?Po, ?Pp, ?Ph; subst s1; sp; ginv_auto Hpc.
+      destruct (Z.eqb_spec (thrcnt s - 1) 0); lia.
+    + intros u. subst s1. destruct (Z.eq_dec u t) as [->|Ne].
+      * self_inv. repeat split; auto; try discriminate.
+      * others_std s HT t u Ne.
+    + intros i. subst s1. apply (index_frame s _ t PDone i); sp; auto. intros j. rewrite Hpc. cbn; auto.
+  - (* PDone: dispatch_apply_f returns (caller only) *)
+    destruct (Z.eqb_spec t c) as [Etc|]; [|discriminate]. subst t. cbn [andb] in Hts.
+    destruct (ev_kind e DVU_RET); [|discriminate]. injection Hts as <-. injection Hs as <-.
+    assert (Hin : In c (parts s)) by exact Gc.
+    specialize (Ov eq_refl).
+    match goal with |- Inv ?x => set (s1 := x) end.
+    psums s s1 c PRet Gnd Hin Hpc.
+    split; [|split].
+    + constructor; rewrite ?Po, ?Pp, ?Ph; subst s1; sp; ginv_auto Hpc; rewrite ?upd_same; cbn [past_wait past_event is_ret evt_enc]; auto.
+    + intros u. subst s1. destruct (Z.eq_dec u c) as [->|Ne].
+      * self_inv. repeat split; auto; try discriminate.
+      * others_std s HT c u Ne.
+    + intros i. subst s1. apply (index_frame s _ c PRet i); sp; auto. intros j. rewrite Hpc. cbn; auto.
+  - discriminate.
+  - discriminate.
 Qed.
